@@ -282,14 +282,24 @@ def eval_exact(ctx, cases, label):
                 model = [Fraction(n, D**3 * S * S) for n in nums]
                 spec = exact_marker(P, fx, fy)
                 Pa = arg_forms(res, "projector", Pf, "chern")
-                impl = np.asarray(cn.chern_marker(lat, Pa))
+                try:
+                    impl = np.asarray(cn.chern_marker(lat, Pa))
+                except Exception as e:
+                    res.violation("marker-raises", f"chern_marker raised {type(e).__name__}: {e} on a {type(Pa).__name__} projector "
+                                  f"(writeable={getattr(getattr(Pa, 'flags', None), 'writeable', None)}) V={V} rank={c['rank']}", case)
+                    continue
             else:
                 model = [Fraction(n, D**3) for n in nums]
                 ax = [Fraction(int(x < Fraction(ch[0]))) for x in fx]
                 ay = [Fraction(int(y < Fraction(ch[1]))) for y in fy]
                 spec = exact_marker(P, ax, ay)
                 Pa = arg_forms(res, "projector", Pf, ch)
-                impl = np.asarray(cn.crosshair_marker(lat, Pa, arg_forms(res, "crosshair", ch, V, c["rank"])))
+                try:
+                    impl = np.asarray(cn.crosshair_marker(lat, Pa, arg_forms(res, "crosshair", ch, V, c["rank"])))
+                except Exception as e:
+                    res.violation("marker-raises", f"crosshair_marker raised {type(e).__name__}: {e} on a {type(Pa).__name__} projector "
+                                  f"(writeable={getattr(getattr(Pa, 'flags', None), 'writeable', None)}) V={V} rank={c['rank']} crosshair={ch}", case)
+                    continue
             if not np.array_equal(Pa, Pf):
                 res.violation("marker-modifies-projector", f"{what}: the projector passed in was modified", case)
             scale = 1.0 + max(abs(float(m)) for m in spec)
@@ -439,6 +449,17 @@ def indep(P, a, b):
     return FOURPI * np.einsum("ij,j,jk,k,ki->i", P, a, P, b, P).imag
 
 
+class ImplRaised(Exception):
+    pass
+
+
+def f0_raw(cn, lat, Q, ch):
+    try:
+        return np.asarray(cn.chern_marker(lat, Q) if ch is None else cn.crosshair_marker(lat, Q, ch))
+    except Exception as e:
+        raise ImplRaised(f"{type(e).__name__}: {e}") from e
+
+
 def eval_numeric(ctx, cases, label):
     res = ctx.res
     worst = res.extra.setdefault("numeric_worst_residual_over_tol", {})
@@ -473,7 +494,27 @@ def eval_numeric(ctx, cases, label):
             else:
                 f = lambda L, Q, sw=False, ch=ch: np.asarray(cn.crosshair_marker(L, arg_forms(res, "projector", Q, ch, sw), arg_forms(res, "crosshair", ch[::-1] if sw else ch, V, sw)))
                 a, b = 1.0 * (x < ch[0]), 1.0 * (y < ch[1])
-            m = f(lat, P.copy())
+            f0 = f
+
+            def f(*a_, f0=f0, **k_):
+                try:
+                    return f0(*a_, **k_)
+                except Exception as e:
+                    raise ImplRaised(f"{type(e).__name__}: {e}") from e
+            try:
+                m = f(lat, P.copy())
+                # a second evaluation with the very same projector object: the marker is a function of (lattice, P)
+                Q = arg_forms(res, "projector", P.copy(), "twice", what)
+                Q0 = np.array(Q, copy=True)
+                m1, m2 = f0_raw(cn, lat, Q, ch), f0_raw(cn, lat, Q, ch)
+            except ImplRaised as e:
+                res.violation("marker-raises", f"{what} V={V}: the implementation raised {e}; crosshair={ch}", case)
+                continue
+            if not np.array_equal(np.asarray(Q), Q0):
+                res.violation("marker-modifies-projector", f"{what} V={V}: the projector passed in was modified; crosshair={ch}", case)
+            if np.shape(m1) == np.shape(m2) and not np.allclose(m1, m2, rtol=0, atol=1e-9 * (1 + np.max(np.abs(m1), initial=0))):
+                res.violation("marker-differs-on-second-call", f"{what} V={V}: two calls with the same lattice and the same projector object returned markers "
+                              f"differing by {np.max(np.abs(np.asarray(m1) - np.asarray(m2))):.3g}; crosshair={ch}", case)
             tol = FOURPI * TOL * max(V, 1) * (1 + np.max(np.abs(a), initial=0) * np.max(np.abs(b), initial=0))
 
             def chk(key, resid, msg):
@@ -487,9 +528,13 @@ def eval_numeric(ctx, cases, label):
             chk("crosshair-formula" if ch else "chern-formula", np.max(np.abs(m - indep(P, a, b)), initial=0),
                 "differs from 4 pi Im diag(P a P b P)")
             chk("sum-not-zero", abs(np.sum(m)), "marker does not sum to zero over the sites")
-            chk("swap-antisymmetry", np.max(np.abs(f(lats, P.copy(), True) + m), initial=0), "exchanging x and y does not flip the sign")
-            chk("relabelling", np.max(np.abs(f(latp, Pp.copy()) - m[order]), initial=0), "marker does not follow the sites under permute_vertices")
-            chk("gauge", np.max(np.abs(f(lat, Pg.copy()) - m), initial=0), "marker changes under a site-wise sign change of P")
+            try:
+                chk("swap-antisymmetry", np.max(np.abs(f(lats, P.copy(), True) + m), initial=0), "exchanging x and y does not flip the sign")
+                chk("relabelling", np.max(np.abs(f(latp, Pp.copy()) - m[order]), initial=0), "marker does not follow the sites under permute_vertices")
+                chk("gauge", np.max(np.abs(f(lat, Pg.copy()) - m), initial=0), "marker changes under a site-wise sign change of P")
+            except ImplRaised as e:
+                res.violation("marker-raises", f"{what} V={V}: the implementation raised {e}; crosshair={ch}", case)
+                continue
             if np.max(np.abs(m), initial=0) > 1e-6:
                 nontriv = True
         res.count("numericS/" + c["kind"], digest(c) if nontriv else None)
